@@ -39,7 +39,7 @@ What is NOT a theorem (explored on the implementation only):
   lock exclusivity, C13); proving the step lemmas under that discipline is not done here.  The
   kernel-level oracle of harness area `c05` evaluates the full forest invariant on the real heap/track
   after every call of every generated sequence (whose generator keeps that discipline), and area
-  `c05e` runs the repo's Kernel/System/Resource/RoleAssignment database checkers after every commit
+  `c05e` runs the repo's Kernel/System/RoleAssignment database checkers after every commit
   of generated engine histories.
 * payload-vs-schema conformance and role validity: not modelled at all (checkers only, area `c05e`).
 -/
